@@ -1535,3 +1535,103 @@ Proof.
   destruct (axis_full_y ny 1 0 (fe T) (fd T) (ff T) (inject_Z 0 + (1 # 2)) Hny B2 HY2 Y1 HCy) as (RE & RF).
   unfold aff_eq, aff_id; simpl. repeat split; auto.
 Qed.
+
+(* ================================================================== recovery from any object carrying fresh GeoBox coordinates *)
+Definition st_attrs (r : Q) (c : option crs) : attrs :=
+  [("units", VOther); ("resolution", VNum r)] ++ cattrs_of c.
+
+Lemma georef_roundtrip_st tol t crs name yd xd Py x ny nx :
+  georef yd xd (label (ff t) (fe t)) (label (fc t) (fa t)) (st_attrs (fe t) crs) (st_attrs (fa t) crs)
+         Py None name (crs_coord_of name crs None (Some t)) (iota ny) (iota nx) x ->
+  is_affine_st tol t = true -> 1 <= ny -> 1 <= nx ->
+  ((2 <= ny /\ 2 <= nx) \/ (name <> None /\ crs <> None)) ->
+  exists T,
+    locate_geo_info repaired tol x =
+      Ok (GeoState (Some (yd, xd)) crs (Some T) (Some (ABox (GBox ny nx T crs)))) /\
+    aff_eq T (Aff (fa t) 0 (fc t) 0 (fe t) (ff t)).
+Proof.
+  intros G Hst Hny Hnx Hfb. rewrite !iota_ap in G.
+  set (ccn := crs_coord_of name crs None (Some t)) in *.
+  assert (Hgcp : match ccn with Some p => extract_gcps (snd p) | None => None end = None).
+  { subst ccn. destruct name, crs; reflexivity. }
+  assert (Hcrs : match ccn with
+                 | Some p => extract_crs (snd p)
+                 | None => hd_error (attr_crs_candidates (st_attrs (fe t) crs) ++ attr_crs_candidates (st_attrs (fa t) crs))
+                 end = crs).
+  { subst ccn. destruct name, crs; reflexivity. }
+  destruct (locate_georef (label (fc t) (fa t)) (label (ff t) (fe t)) (fc t) (fa t) (ff t) (fe t)
+              (label_spec _ _) (label_spec _ _) repaired tol yd xd _ _ Py None name ccn
+              0 1 nx 0 1 ny x G Hnx Hny) as (T & E & P1 & P2 & P3 & P4 & P5 & P6 & P7).
+  { destruct Hfb as [[? ?]|[Hn Hc]]; [left; auto|right].
+    subst ccn. destruct name as [n|]; [|congruence]. destruct crs as [c|]; [|congruence].
+    simpl. eexists. apply fallback_st. exact Hst. }
+  rewrite Hgcp, Hcrs in E. simpl in E.
+  exists T. split; [exact E|].
+  assert (Hfbv : forall r, fallback_of repaired tol (option_map snd ccn)
+                             (is_some match ccn with Some p => extract_gcps (snd p) | None => None end)
+                             (if is_some match ccn with Some p => extract_gcps (snd p) | None => None end then None else None)
+                           = Ok (Some r) -> r = (fa t, fe t)).
+  { intros r. rewrite Hgcp. simpl. subst ccn. destruct name as [n|], crs as [c|]; simpl;
+      try (intros Hr; discriminate Hr).
+    rewrite (fallback_st tol t c Hst). intros Hr; injection Hr as <-. reflexivity. }
+  destruct (P3 0 0) as (Cx & Cy); try lia.
+  unfold aff_apply, label in Cx, Cy; cbn [fst snd] in Cx, Cy.
+  change (inject_Z (0 + 1 * 0)) with 0%Q in Cx, Cy. change (inject_Z 0) with 0%Q in Cx, Cy.
+  assert (RA : fa T == fa t).
+  { destruct (Z_le_gt_dec 2 nx) as [H|H].
+    - destruct (P4 H) as (R & _). rewrite R. change (inject_Z 1) with 1%Q. ring.
+    - destruct (P6 ltac:(lia)) as (r & Fr & Er). rewrite (Hfbv r Fr) in Er. exact Er. }
+  assert (RE : fe T == fe t).
+  { destruct (Z_le_gt_dec 2 ny) as [H|H].
+    - destruct (P5 H) as (R & _). rewrite R. change (inject_Z 1) with 1%Q. ring.
+    - destruct (P7 ltac:(lia)) as (r & Fr & Er). rewrite (Hfbv r Fr) in Er. exact Er. }
+  assert (RC : fc T == fc t).
+  { assert (X : fc T == (0 * fa t + (fc t + fa t / 2)) - (fa T * (0 + (1 # 2)) + fb T * (0 + (1 # 2)))) by (rewrite <- Cx; ring).
+    rewrite X, RA, P1. field. }
+  assert (RF : ff T == ff t).
+  { assert (X : ff T == (0 * fe t + (ff t + fe t / 2)) - (fd T * (0 + (1 # 2)) + fe T * (0 + (1 # 2)))) by (rewrite <- Cy; ring).
+    rewrite X, RE, P2. field. }
+  unfold aff_eq; simpl. repeat split; auto.
+Qed.
+
+Lemma georef_roundtrip_rot tol t crs name yd xd Py x ny nx :
+  georef yd xd pix_label pix_label [("units", VOther)] [("units", VOther)]
+         Py (Some t) name (crs_coord_of name crs None (Some t)) (iota ny) (iota nx) x ->
+  1 <= ny -> 1 <= nx ->
+  let c := match name with Some _ => crs | None => None end in
+  exists T,
+    locate_geo_info repaired tol x =
+      Ok (GeoState (Some (yd, xd)) c (Some T) (Some (ABox (GBox ny nx T c)))) /\
+    aff_eq T t.
+Proof.
+  intros G Hny Hnx c. rewrite !iota_ap in G.
+  set (ccn := crs_coord_of name crs None (Some t)) in *.
+  assert (Hgcp : match ccn with Some p => extract_gcps (snd p) | None => None end = None).
+  { subst ccn. destruct name, crs; reflexivity. }
+  assert (Hcrs : match ccn with
+                 | Some p => extract_crs (snd p)
+                 | None => hd_error (attr_crs_candidates [("units", VOther)] ++ attr_crs_candidates [("units", VOther)])
+                 end = c).
+  { subst ccn c. destruct name, crs; reflexivity. }
+  destruct (locate_georef pix_label pix_label 0 1 0 1 pix_label_spec pix_label_spec repaired tol yd xd _ _
+              Py (Some t) name ccn 0 1 nx 0 1 ny x G Hnx Hny) as (T & E & P1 & P2 & P3 & P4 & P5 & P6 & P7).
+  { right. rewrite Hgcp. simpl. eexists; reflexivity. }
+  rewrite Hgcp, Hcrs in E. simpl in E.
+  exists (aff_mul t T). split; [exact E|].
+  destruct (P3 0 0) as (Cx & Cy); try lia.
+  unfold aff_apply, pix_label in Cx, Cy; cbn [fst snd] in Cx, Cy.
+  change (inject_Z (0 + 1 * 0)) with 0%Q in Cx, Cy. change (inject_Z 0) with 0%Q in Cx, Cy.
+  assert (RA : fa T == 1).
+  { destruct (Z_le_gt_dec 2 nx) as [H|H].
+    - destruct (P4 H) as (R & _). rewrite R. change (inject_Z 1) with 1%Q. ring.
+    - destruct (P6 ltac:(lia)) as (r & Fr & Er). rewrite Hgcp in Fr. simpl in Fr. injection Fr as <-. exact Er. }
+  assert (RE : fe T == 1).
+  { destruct (Z_le_gt_dec 2 ny) as [H|H].
+    - destruct (P5 H) as (R & _). rewrite R. change (inject_Z 1) with 1%Q. ring.
+    - destruct (P7 ltac:(lia)) as (r & Fr & Er). rewrite Hgcp in Fr. simpl in Fr. injection Fr as <-. exact Er. }
+  assert (RC : fc T == 0).
+  { rewrite RA, P1 in Cx. lra. }
+  assert (RF : ff T == 0).
+  { rewrite RE, P2 in Cy. lra. }
+  apply aff_mul_near_id; auto.
+Qed.
